@@ -1,21 +1,23 @@
 #!/bin/bash
-# usage: seedround.sh <prop> <k> [more props to check...]
+# usage: [SR_QUICK=1] [SR_ARGS="--only x"] seedround.sh <prop> <k> [more props to check...]   (SRC dir: $SR_SRC or /tmp/wt_<prop>/out)
 # Confirms a sub-agent's change /tmp/wt_<prop>/out/change_<k>.diff on a scratch copy of /repo (never /repo itself):
 #   patch applies to HEAD; suite with the change (440 passed + the 4 known failures); demo exits 1 with / 0 without;
 #   then runs the quick check(s) against the changed copy. Prints a short report; scratch removed at the end.
 P=$1; K=$2; shift 2
-SRC=/tmp/wt_$P/out
+SRC=${SR_SRC:-/tmp/wt_$P/out}
 S=/var/tmp/seedround.$P.$K.$$
 mkdir -p $S/t
 git -C /repo archive HEAD | tar -x -C $S/t
 cd $S/t
 if ! patch -p1 -s < $SRC/change_$K.diff; then echo "PATCH DOES NOT APPLY"; rm -rf $S; exit 9; fi
-PYTHONPATH=$S/t PYTHONWARNINGS=ignore /venv/bin/python -m pytest -q -p no:cacheprovider --timeout=900 -q > $S/suite.txt 2>&1
+if [ -z "$SR_QUICK" ]; then
+PYTHONPATH=$S/t /venv/bin/python -m pytest -q -p no:cacheprovider --timeout=900 -q > $S/suite.txt 2>&1
 echo "suite with change: $(tail -1 $S/suite.txt) | failures: $(grep -c '^FAILED' $S/suite.txt) ($(grep '^FAILED' $S/suite.txt | grep -vc test_yaml.py::test_.*shell_script) unexpected)"
 PYTHONPATH=$S/t PYTHONWARNINGS=ignore /venv/bin/python $SRC/demo_$K.py > $S/demo.out 2>&1; echo "demo with change: exit=$? ($(tail -1 $S/demo.out | cut -c1-200))"
 (cd /repo && PYTHONPATH=/repo PYTHONWARNINGS=ignore /venv/bin/python $SRC/demo_$K.py > /dev/null 2>&1; echo "demo without change: exit=$?")
+fi
 for Q in $P "$@"; do
-  PYVC_REPO=$S/t PYVC_EVIDENCE_DIR=$S/evidence PYVC_REPLAY_DIR=$S/replays /verif/check $Q > $S/out.$Q.txt 2>&1
+  PYVC_REPO=$S/t PYVC_EVIDENCE_DIR=$S/evidence PYVC_REPLAY_DIR=$S/replays /verif/check $Q $SR_ARGS > $S/out.$Q.txt 2>&1
   e=$?
   echo "check $Q: exit=$e; $(grep -c '^VIOLATION' $S/out.$Q.txt) violation lines, $(grep '^VIOLATION' $S/out.$Q.txt | grep -vc no-failing-input-found) with replayed failing input; $(grep 'quick:' $S/out.$Q.txt | sed 's/.*obligations/obligations/')"
   grep -E "^VIOLATION|^UNDECIDED|^CHECKER-ERROR|UNSUPPORTED" $S/out.$Q.txt | sed 's/.*replays\/[A-Z0-9]*\///' | cut -c1-220 | head -4
